@@ -77,7 +77,10 @@ func (c *Collection) writeWithMeta(key string, body []byte, xattrs []byte, oldCa
 			isJSON:     isJSON,
 			revSeqNo:   revSeqNo,
 		}
-		return c.storeDocument(txn, e)
+		if err = c.storeDocument(txn, e); err != nil {
+			return err
+		}
+		return c.noteForeignCas(txn, newCas)
 	})
 
 	if err != nil {
@@ -88,6 +91,24 @@ func (c *Collection) writeWithMeta(key string, body []byte, xattrs []byte, oldCa
 		c.postNewEvent(e)
 	}
 	return nil
+}
+
+// noteForeignCas keeps the collection's high-water mark, the clock and the view indexes consistent with a
+// caller-supplied CAS (SetWithMeta / DeleteWithMeta), which need not be newer than what is already stored.
+func (c *Collection) noteForeignCas(txn *sql.Tx, newCas CAS) error {
+	hlc.updateLatestTime(Timestamp(newCas)) // later regular writes must get a larger CAS than this document
+	lastCas, err := c.getLastCas(txn)
+	if err != nil {
+		return err
+	}
+	if newCas > lastCas {
+		return c.setLastCas(txn, newCas)
+	}
+	// The document now has a CAS at or below what the views have indexed, so "cas > lastCas" would
+	// never pick it up: make the collection's views re-index from scratch.
+	_, err = txn.Exec(`UPDATE views SET lastCas=0 WHERE designDoc IN
+							(SELECT id FROM designDocs WHERE collection=?1)`, c.id)
+	return err
 }
 
 // DeleteWithMeta tombstones a document and sets a specific cas. This update will always happen as long as oldCas matches the value of existing document. This simulates the kv op deleteWithMeta.
